@@ -41,6 +41,14 @@ def run(ck):
     no_narrowing(ck, "C02.6")
     ck.clause("C02.7", "query coordinates and QryLen follow the trim formulae (position - first label, length = last - first + 1; as C17.5)")
     trim_formulae(ck, "C02.7")
+    ck.clause("C02.8", "RefLen / QryLen are the lengths of the molecules named: a map's length is read from its own end-marker row, "
+                       "inside its own CMapId group (as C17.2)")
+    from ..report import RuleView
+    from . import c17, c08
+    c17.run(RuleView(ck, {"C17.2": "C02.8"}))
+    ck.clause("C02.9", "RefContigID names the map of every listed label: records are joined only on the same reference and strand "
+                       "(as C08.4)")
+    c08._eligibility(ck, {}, None, rule="C02.9", wiring=False)
     n = R.run_role_rule(ck, "C02.3", modules={"src.alignment.alignment_results", "src.alignment.aligner"})
     ck.floor("C02 role bindings judged", n, 40)
 
@@ -280,7 +288,45 @@ def header_derivation(ck, rule):
 
 
 # ---------------------------------------------------------------------------------------------------------- C02.4
+def fragments_reach_second_pass(ck, rule):
+    """the fragments are aligned as they were cut: the query list handed to the second pass consists of the very objects
+    getUnalignedFragments returned (flattened) - not of copies re-based by trim() or rebuilt in any other way, which would lose
+    the label-number offset and the whole-molecule coordinates the joined record relies on"""
+    from ..rules.common import path_terms
+    ctx = ck.ctx
+    fn = ctx.p.find_method("_MultiPassWorkflowCoordinator", "getSecondPassAlignmentRows")
+    n = 0
+    for pa in explore(ck, fn, unroll=(0, 1)):
+        for t, facts, node, kind in path_terms(pa):
+            for x in T.subterms(t):
+                if x[0] == "app" and x[1].endswith("_WorkflowCoordinator.execute"):
+                    n += 1
+                    q = dict(x[3]).get("queryMaps")
+                    w = where(fn, node)
+                    if q is None:
+                        raise AnalysisError(f"{w}: query list of the second pass not bound")
+                    # comp over (rows -> getUnalignedFragments(...)) whose element is the inner bound variable itself
+                    def cuts(it):
+                        return (it[0] == "app" and it[1].endswith("getUnalignedFragments")) or \
+                            (it[0] == "mcall" and it[2] == "getUnalignedFragments")
+                    ok = q[0] == "comp" and q[2][0] == "bv" and any(cuts(it) for it, _ in q[3]) and not any(ifs for _, ifs in q[3])
+                    rebuilt = q[0] == "comp" and q[2][0] != "bv"
+                    if ok:
+                        ck.ok(rule, short(fn) + ":fragments-as-cut", w, "the second pass aligns the fragments exactly as "
+                              "getUnalignedFragments returned them", T.show(q)[:200])
+                    elif rebuilt:
+                        ck.violation(rule, short(fn) + ":fragments-as-cut", w, "the fragments are transformed before the second pass "
+                                     "(re-based / rebuilt): label numbers and coordinates of second-pass records no longer refer to "
+                                     "the whole molecule", found=T.show(q[2])[:200], required="the fragment objects themselves")
+                    else:
+                        raise AnalysisError(f"{w}: query list of the second pass not recognised: {T.show(q)[:200]}")
+        if n:
+            break
+    ck.floor(f"{rule} second-pass execute calls", n, 1)
+
+
 def fragments(ck, rule):
+    fragments_reach_second_pass(ck, rule)
     ctx = ck.ctx
     fn = ctx.p.find_method("AlignmentResultRow", "getUnalignedFragments")
     paths = [p for p in explore(ck, fn, unroll=(0, 1)) if p.outcome == "return"]
